@@ -320,6 +320,8 @@ fn run_shard<C: Serialize + Clone + std::fmt::Debug>(spec: &Spec<C>, tier: Tier,
     let strategy = proptest::collection::vec(proptest::num::u64::ANY, spec.tape_len..=spec.tape_len);
     let stats = RefCell::new(Stats::default());
     let failed = RefCell::new(false);
+    // the first failing observation of the shard (before any shrinking), kept for failures that depend on the call history
+    let first_failure: RefCell<Option<(Failure, Value)>> = RefCell::new(None);
     let result = runner.run(&strategy, |tape_data| {
         let counting = !*failed.borrow();
         let mut tape = Tape::new(&tape_data);
@@ -375,6 +377,7 @@ fn run_shard<C: Serialize + Clone + std::fmt::Debug>(spec: &Spec<C>, tier: Tier,
                 }
                 if counting {
                     stats.borrow_mut().evaluations += 1;
+                    *first_failure.borrow_mut() = Some((f.clone(), serde_json::to_value(&case).unwrap_or(Value::Null)));
                 }
                 *failed.borrow_mut() = true;
                 Err(TestCaseError::fail(f.signature.clone()))
@@ -390,8 +393,15 @@ fn run_shard<C: Serialize + Clone + std::fmt::Debug>(spec: &Spec<C>, tier: Tier,
                 let mut ctx = Ctx::default();
                 if let Ok(Err(f)) = catch_unwind(AssertUnwindSafe(|| (spec.check)(&case, &mut ctx))) {
                     stats.failures.push((f, serde_json::to_value(&case).unwrap_or(Value::Null)));
+                } else if let Some((f, cj)) = first_failure.borrow_mut().take() {
+                    // Every check is a deterministic function of its case (no clock, no rng of its own): a case that failed
+                    // inside the campaign and passes when evaluated again has been answered differently by the code
+                    // under test for the same arguments, i.e. the earlier calls of this shard mattered. The observation
+                    // is reported as it was made; the case alone does not reproduce it, the same seed does.
+                    let f2 = Failure { signature: format!("{}:depends-on-call-history", f.signature), message: format!("{} [the same case passes when evaluated again in isolation: the outcome depended on the calls made before it on this thread; reproduce with VERIF_SEED={seed} ./check {} {}]", f.message, spec.id, if tier == Tier::Quick { "quick" } else { "thorough" }) };
+                    stats.failures.push((f2, cj));
                 } else {
-                    stats.harness_panics.push("shrunk case no longer fails (non-deterministic check?)".into());
+                    stats.harness_panics.push("shrunk case no longer fails and the first failure was not recorded".into());
                 }
             }
         }
